@@ -49,6 +49,11 @@ def synthetic_loads(spec):
     sh = int(spec.get("shift_hours", 0))
     if sh:
         out = out[-sh:] + out[:-sh]              # the same year of loads started `shift_hours` later (same length, same annual total)
+    for h0, v in spec.get("spikes", []):
+        out[int(h0)] = float(v)
+    if spec.get("as_int"):
+        # whole numbers of watts given as Python ints (a JSON file without decimal points), not multiples of 1000
+        out = [int(round(x)) + (1 if int(round(x)) % 1000 == 0 and x != 0 else 0) for x in out]
     return out
 
 
@@ -151,6 +156,12 @@ def reference_simulation(c, coords, height):
     from ghedesigner.utilities import borehole_spacing, eskilson_log_times
     fl, gr, so, pp, bh, gc, dz = c["fluid"], c["grout"], c["soil"], dict(c["pipe"]), c["borehole"], c["geometric_constraints"], c["design"]
     fluid = GHEFluid(fluid_str=fl["fluid_name"], percent=fl["concentration_percent"], temperature=fl.get("temperature", 20))
+    # the property tables asked for by name, concentration and temperature, straight from pygfunction (own name -> mixture code map)
+    import pygfunction as _gt
+    _code = {"WATER": "WATER", "PROPYLENEGLYCOL": "MPG", "ETHYLENEGLYCOL": "MEG", "METHYLALCOHOL": "MMA", "ETHYLALCOHOL": "MEA"}[fl["fluid_name"].upper()]
+    _pf = _gt.media.Fluid(_code, fl["concentration_percent"], fl.get("temperature", 20))
+    fluid_indep = {"rho": float(_pf.rho), "mu": float(_pf.mu), "cp": float(_pf.cp), "k": float(_pf.k)}
+    fluid_used = {"rho": float(fluid.rho), "mu": float(fluid.mu), "cp": float(fluid.cp), "k": float(fluid.k)}
     grout = Grout(gr["conductivity"], gr["rho_cp"])
     soil = Soil(so["conductivity"], so["rho_cp"], so["undisturbed_temp"])
     arr = pp.pop("arrangement").upper()
@@ -173,7 +184,7 @@ def reference_simulation(c, coords, height):
     sp = SimulationParameters(1, c["simulation"]["num_months"], dz["max_eft"], dz["min_eft"], gc["max_height"], gc["min_height"])
     b = borehole_spacing(borehole, coords)
     gfn = calc_g_func_for_multiple_lengths(b, [borehole.H], borehole.r_b, borehole.D, m_bh, bt, eskilson_log_times(), coords, fluid, pipe, grout, soil)
-    ghe = GHE(v_sys, b, bt, fluid, borehole, pipe, grout, soil, gfn, sp, list(c["loads"]["ground_loads"]))
+    ghe = GHE(v_sys, b, bt, fluid, borehole, pipe, grout, soil, gfn, sp, [float(x) for x in c["loads"]["ground_loads"]])
     ghe.compute_g_functions()
     ghe.bhe.b.H = height
     mx, mn = ghe.simulate(method=TimestepType.HYBRID)
@@ -185,7 +196,26 @@ def reference_simulation(c, coords, height):
             "durations": {"cl": [float(v) for v in hl.monthly_peak_cl_duration[:13]], "hl": [float(v) for v in hl.monthly_peak_hl_duration[:13]]},
             "monthly": {"cl": [float(v) for v in hl.monthly_cl[:13]], "hl": [float(v) for v in hl.monthly_hl[:13]],
                         "pcl": [float(v) for v in hl.monthly_peak_cl[:13]], "phl": [float(v) for v in hl.monthly_peak_hl[:13]]},
-            "hp_eft_head": [float(v) for v in ghe.hp_eft[:40]]}
+            "hp_eft_head": [float(v) for v in ghe.hp_eft[:40]], "fluid_from_pygfunction": fluid_indep, "fluid_of_the_reference": fluid_used,
+            "soil_ugt": float(soil.ugt)}
+
+
+def reference_in_fresh_process(c, coords, height):
+    """reference_simulation in an interpreter of its own: nothing that an earlier design left in this process (module-level tables, class
+    attributes, caches) can reach it"""
+    import subprocess, tempfile
+    with tempfile.NamedTemporaryFile("w", suffix=".json", delete=False) as f:
+        json.dump({"mode": "reference", "cfg": {k: v for k, v in c.items() if not k.startswith("_")}, "coords": [list(p) for p in coords], "height": height}, f)
+        path = f.name
+    try:
+        with open(path) as fin:
+            p = subprocess.run([sys.executable, os.path.abspath(__file__)], stdin=fin, capture_output=True, text=True, timeout=1500,
+                               env=dict(os.environ))
+        if p.returncode != 0:
+            raise RuntimeError("reference process failed: " + p.stderr[-300:])
+        return json.loads(p.stdout.strip().splitlines()[-1])
+    finally:
+        os.unlink(path)
 
 
 def summarise(g, with_series=False):
@@ -200,6 +230,8 @@ def summarise(g, with_series=False):
         "field_type": ghe.fieldType,
         "m_flow_borehole": ghe.bhe.m_flow_borehole,
         "fluid_rho": float(ghe.bhe.fluid.rho),
+        "fluid_props": {"rho": float(ghe.bhe.fluid.rho), "mu": float(ghe.bhe.fluid.mu), "cp": float(ghe.bhe.fluid.cp), "k": float(ghe.bhe.fluid.k)},
+        "soil_ugt": float(ghe.bhe.soil.ugt),
         "selected_coords": ([[float(x), float(y)] for x, y in s.selected_coordinates] if getattr(s, "selected_coordinates", None) is not None else None),
         "simulated_months": int(ghe.sim_params.end_month - ghe.sim_params.start_month + 1),
         "durations": {"cl": [float(v) for v in ghe.hybrid_load.monthly_peak_cl_duration[:13]], "hl": [float(v) for v in ghe.hybrid_load.monthly_peak_hl_duration[:13]]},
@@ -246,7 +278,7 @@ def run(cfg, outdir=None, with_series=False):
             try:
                 g.find_design()
                 import tempfile as _tf
-                g.prepare_results("first study", "note", "verif", "it")
+                g.prepare_results("verif", "note", "verif", "it")          # the same project name / notes / author / iteration as the study that follows
                 g.write_output_files(Path(_tf.mkdtemp(prefix="verif_first_")))
             except ValueError:
                 pass
@@ -304,7 +336,7 @@ def run(cfg, outdir=None, with_series=False):
         res["resim_excess"] = ghe.cost(mx, mn)
         res["hp_eft_head"] = [float(v) for v in ghe.hp_eft[:40]]
         try:
-            res["reference"] = reference_simulation(c, [tuple(p) for p in res["coords"]], float(res["H"]))
+            res["reference"] = reference_in_fresh_process(c, [tuple(p) for p in res["coords"]], float(res["H"]))
         except Exception as ex_:
             res["reference_error"] = f"{type(ex_).__name__}: {str(ex_)[:200]}"
         # the candidate just before the selected one, evaluated afresh at the maximum height (C05: it must fail there);
@@ -568,6 +600,9 @@ def run_cli_sequence(cfgs):
 
 if __name__ == "__main__":
     p = read_payload()
+    if p.get("mode") == "reference":
+        emit(reference_simulation(p["cfg"], [tuple(x) for x in p["coords"]], float(p["height"])))
+        sys.exit(0)
     if p.get("mode") == "cli_sequence":
         emit([run_cli_sequence(seq) for seq in p["sequences"]])
         sys.exit(0)
